@@ -122,6 +122,8 @@ class Script:
         ("settings", "rst == 0 and ping == 0 and b0 == 0 and p2 == 0 and p3 == 0 and p4 == 0 and p5 == 0 and d0 == 0 and c0 == 0"),
         ("rst", "sv == 0 and ping == 0 and b0 == 0 and p4 == 0 and p5 == 0 and d0 == 0 and c0 == 0"),
         ("ping", "sv == 0 and rst == 0 and b0 == 0 and p2 == 0 and p3 == 0 and p4 == 0 and p5 == 0 and aband == 0 and d0 == 0 and c0 == 0"))]
+    + [{"S": 2, "mode": "cancel", "_pre": f"cz > 0 and sv == {v} and rst == 0 and ping == 0 and b0 == 0 and p3 == 0 and p4 == 0 and p5 == 0 and aband == 0 and d0 == 0 and c0 == 0 and sa <= 5"}
+       for v in (0, 5)]
     + [{"S": 3, "mode": "limited", "adv": adv, "cold": cold,
         "_pre": "sv == 0 and rst == 0 and ping == 0 and b0 == 0 and p1 == 0 and p2 == 0 and p3 == 0 and p4 == 0 and p5 == 0 and aband == 0 and d0 <= 12"}
        for adv in (1, 2) for cold in (False, True)]
@@ -133,24 +135,26 @@ class Script:
     + [{"S": 3, "mode": "limited", "adv": adv, "cold": cold, "_pre": "sv == 0 and rst == 0 and ping == 0 and b0 in (0, 3) and p3 == 0 and p4 == 0 and p5 == 0 and aband == 0"}
        for adv in (1, 2) for cold in (False, True)]
     + [{"S": 2, "mode": "all2", "_pre": f"p0 == {a} and d0 == 0 and c0 == 0"} for a in range(2)],
-    example=dict(p0=1, p1=0, p2=1, p3=0, p4=0, p5=0, b0=2, sa=1, sv=0, rst=0, ping=0, aband=0, d0=0, c0=0),
+    example=dict(p0=1, p1=0, p2=1, p3=0, p4=0, p5=0, b0=2, sa=1, sv=0, rst=0, ping=0, aband=0, d0=0, c0=0, cz=0),
     require=("interleaved", "all-complete"),
     timeout={"quick": 300, "thorough": 1800},
-    symbolic="merge order of the per-stream frame sequences (up to 6 picks), batch boundary b0, SETTINGS(MAX_CONCURRENT_STREAMS) position and value from {1,2,3,100,1000} (incl. below the number in flight), RST_STREAM on one stream, PING position, which caller abandons its response, one deviation from the FIFO schedule",
+    symbolic="merge order of the per-stream frame sequences (up to 6 picks), batch boundary b0, SETTINGS(MAX_CONCURRENT_STREAMS) position and value from {1,2,3,100,1000} (incl. below the number in flight), RST_STREAM on one stream, PING position, which caller abandons its response, one deviation from the FIFO schedule, cancellation of the first caller at a scheduler step",
     bounds="S = 2 or 3 concurrent requests after a warm-up request on one HTTP/2 connection (prior knowledge), responses of HEADERS + 2 DATA frames",
     outside="more than 3 concurrent streams; CONTINUATION/push/priority frames; more than one schedule deviation",
     stubs=("strict h2 library in server role (raises on stream-limit or flow-control violations)", "server releases the next batch of frames whenever every client task is blocked"),
     also=("C01",),
 )
 def streams(p0: int, p1: int, p2: int, p3: int, p4: int, p5: int, b0: int, sa: int, sv: int, rst: int, ping: int,
-            aband: int, d0: int, c0: int) -> None:
+            aband: int, d0: int, c0: int, cz: int) -> None:
     """
     pre: 0 <= p0 <= 2 and 0 <= p1 <= 2 and 0 <= p2 <= 2 and 0 <= p3 <= 2 and 0 <= p4 <= 2 and 0 <= p5 <= 2
     pre: 0 <= b0 <= 8 and 0 <= sa <= 9 and 0 <= sv <= 5 and 0 <= rst <= 3 and 0 <= ping <= 9 and 0 <= aband <= 3
-    pre: 0 <= d0 <= 30 and 0 <= c0 <= 2
+    pre: 0 <= d0 <= 30 and 0 <= c0 <= 2 and 0 <= cz <= 40
     post: _
     """
     S = shard("S", 2)
+    if shard("mode", "") != "cancel" and cz != 0:
+        return
     if S == 2 and (p0 > 1 or p1 > 1 or p2 > 1 or p3 > 1 or p4 > 1 or p5 > 1 or rst > 2 or aband > 2):
         return
     # canonical forms: parameters that have no effect are pinned to 0
@@ -159,13 +163,13 @@ def streams(p0: int, p1: int, p2: int, p3: int, p4: int, p5: int, b0: int, sa: i
     picks = [ladder(x, 0, 2) for x in (p0, p1, p2, p3, p4, p5)]
     bb, saa, svv = ladder(b0, 0, 8), ladder(sa, 0, 9), ladder(sv, 0, 5)
     rr, pp, ab = ladder(rst, 0, 3), ladder(ping, 0, 9), ladder(aband, 0, 3)
-    dd, cc = ladder(d0, 0, 30), ladder(c0, 0, 2)
-    with concrete(bb, saa, svv, rr, pp, ab, dd, cc, *picks):
-        _streams(S, picks, bb, saa, MAXS[svv], rr - 1, pp - 1, ab - 1, [(dd, cc)] if dd or cc else [])
+    dd, cc, czz = ladder(d0, 0, 30), ladder(c0, 0, 2), ladder(cz, 0, 40)
+    with concrete(bb, saa, svv, rr, pp, ab, dd, cc, czz, *picks):
+        _streams(S, picks, bb, saa, MAXS[svv], rr - 1, pp - 1, ab - 1, [(dd, cc)] if dd or cc else [], czz)
 
 
 def _streams(S: int, picks: list[int], b0: int, settings_at: int, settings_val: int, rst_idx: int, ping_at: int,
-             abandon_idx: int, devs: list[tuple[int, int]]) -> None:
+             abandon_idx: int, devs: list[tuple[int, int]], cancel_at: int = 0) -> None:
     adv, cold = shard("adv", None), shard("cold", False)
     script = Script(S, picks, [b0], settings_at, settings_val, rst_idx, ping_at, warm=not cold)
     su = Setup("h2prior", True, max_connections=1, h2_policy=script,
@@ -181,7 +185,11 @@ def _streams(S: int, picks: list[int], b0: int, settings_at: int, settings_val: 
     rt.on_idle = lambda: bool(su.net.socks) and script.release(su.net.socks[0])
     callers = [Caller(f"s{i}", su.url(f"s{i}"), f"s{i}".encode(), behaviour="abandon" if i == abandon_idx else "read")
                for i in range(S)]
-    run_callers(su, callers, devs)
+    # optionally the first caller is cancelled at a scheduler step: the others
+    # must still receive exactly their own streams
+    run_callers(su, callers, devs, [("s0", cancel_at, False)] if cancel_at else [])
+    if cancel_at:
+        P.cover("cancelled-caller")
     if not P.check(bool(su.origins), "connected", f"{sig}:no-connection"):
         return
     srv = su.origins[0]
@@ -191,6 +199,14 @@ def _streams(S: int, picks: list[int], b0: int, settings_at: int, settings_val: 
     if len(set(picks[:4])) > 1:
         P.cover("interleaved")
     where = f"settings={settings_val}@{'below-in-flight' if 0 < settings_val < S else 'ok'}" if settings_val else "plain"
+    # -------- each caller receives exactly its own stream
+    for prop in ("C12", "C01"):
+        token_oracle(callers, prop, sig)
+    if cancel_at:
+        # a caller cancelled mid-exchange is outside C12's quantifier (callers
+        # "read or abandon"): only isolation of what the others received is
+        # asserted for those runs
+        return
     # -------- cannot wedge each other
     P.check(not rt.deadlocked, "no-stream-wedges-another",
             lambda: f"{sig}:deadlock:{where}:rst={rst_idx >= 0}", prop="C12")
@@ -201,6 +217,8 @@ def _streams(S: int, picks: list[int], b0: int, settings_at: int, settings_val: 
         reset_tok = srv.path(script.reset_sid).lstrip(b"/")
     done = 0
     for c in callers:
+        if cancel_at and c.name == "s0":
+            continue
         if c.token == reset_tok:
             P.cover("reset")
             if c.behaviour == "read":
@@ -216,9 +234,6 @@ def _streams(S: int, picks: list[int], b0: int, settings_at: int, settings_val: 
             done += 1
     if done == S or (reset_tok is not None and done == S - 1):
         P.cover("all-complete")
-    # -------- each caller receives exactly its own stream
-    for prop in ("C12", "C01"):
-        token_oracle(callers, prop, sig)
     # -------- bounded: never more open streams than advertised
     limit = min(adv or 100, 100)
     P.check(srv.max_open <= limit, "open-streams<=advertised-limit", lambda: f"{sig}:max-open:{srv.max_open}>{limit}", prop="C12")
